@@ -6,13 +6,12 @@ import KrroodVerif.Lemmas.HeapReach
 
 `C20_wf_run`: in every history (every schema, allocator, `id()` recycling) the heap of the model of the code as it is
 mentions live instances only. `C20_no_garbage_after_collect_run`: hence a `gc.collect()` at ANY point of ANY history leaves
-no garbage (`Heap.collect` is idempotent on every heap a history produces). `C20_no_garbage_run_partial`: for every
-schema in which the inference started by a CONTAINER field only reaches container fields (`Schema.ContainerClosed`: the
-harness's schema is one, `C20_harness_schema_closed`) the garbage list is empty at every point of every history.
-`C20_cex_container_overwrite`: without that hypothesis the statement is false IN THE MODEL (a model finding, see
-notes/build_reports): an inferred relation on a scalar field overwrites the old value, the model's container `set` does not
-collect, CPython would free the old value at once. `C20_drop_all_clean` (every schema): once the user holds no instance and
-no query object nothing is alive and after a sweep every SymbolGraph structure is empty.
+no garbage (`Heap.collect` is idempotent on every heap a history produces). `C20_no_garbage_run`: for EVERY schema the
+garbage list is empty at every point of every history (the model's `set` on a container field ends with a collection, as
+the one on a scalar field does: its inference may overwrite a scalar field — `parent` of `children` — and CPython frees the
+overwritten value at once; `C20_cex_container_overwrite` is the regression witness of the former model lag).
+`C20_drop_all_clean` (every schema): once the user holds no instance and no query object nothing is alive and after a
+sweep every SymbolGraph structure is empty.
 -/
 namespace KrroodVerif.SG
 
@@ -289,8 +288,8 @@ theorem census_live {q : Quirks} {S : Schema} {s : Spec} (hI : SpecInv s) (T : C
 
 /-- **the invariant step by step**: every operation of a history keeps the heap well-formed and (container-closed schema)
 free of garbage -/
-theorem specStep_HK (q : Quirks) (S : Schema) (s : Spec) (op : Op) (hI : SpecInv s)
-    (hk : HK q S.ContainerClosed s.h) : HK q S.ContainerClosed (specStep q S s op).h := by
+theorem specStep_HK (q : Quirks) (C : Prop) (S : Schema) (s : Spec) (op : Op) (hI : SpecInv s)
+    (hk : HK q C s.h) : HK q C (specStep q S s op).h := by
   cases op with
   | new o c pid =>
     simp only [specStep]
@@ -351,17 +350,17 @@ theorem specStep_HK (q : Quirks) (S : Schema) (s : Spec) (op : Op) (hI : SpecInv
         have hk3 := HK.assert (S := S) (fun hc => hc.elim) hI2 hk2 f ⟨xa.obj, xa.cls⟩ ⟨xb.obj, xb.cls⟩
           ((isLive_iff _ _).2 ⟨xa, hla', rfl⟩) ((isLive_iff _ _).2 ⟨xb, hlb', rfl⟩) (fun hc => hc.elim)
         exact HK.collect hk3.1
-      · rename_i hkind
+      · -- container: an inferred relation on a scalar field may have overwritten a value, which may be garbage until
+        -- the collection at the end
         have hI2 := (hI.ensure xa hxa.1).ensure xb hxb.1
-        have hk2 : HK q S.ContainerClosed ((s.ensure xa).ensure xb).h := HK.ensure (HK.ensure hk xa) xb
-        have hns : S.kind f ≠ .scalar := by
-          intro h1; exact hkind h1
-        have hk3 := HK.assert (S := S) (fun hc => hc) hI2 hk2 f ⟨xa.obj, xa.cls⟩ ⟨xb.obj, xb.cls⟩
-          ((isLive_iff _ _).2 ⟨xa, hxa.1, rfl⟩) ((isLive_iff _ _).2 ⟨xb, hxb.1, rfl⟩) (fun _ => hns)
+        have hk2 : HK q False ((s.ensure xa).ensure xb).h := HK.ensure (HK.ensure hk.weaken xa) xb
+        have hk3 := HK.assert (S := S) (fun hc => hc.elim) hI2 hk2 f ⟨xa.obj, xa.cls⟩ ⟨xb.obj, xb.cls⟩
+          ((isLive_iff _ _).2 ⟨xa, hxa.1, rfl⟩) ((isLive_iff _ _).2 ⟨xb, hxb.1, rfl⟩) (fun hc => hc.elim)
         have hl3 := (assert_heap S ((s.ensure xa).ensure xb) f ⟨xa.obj, xa.cls⟩ ⟨xb.obj, xb.cls⟩).1
-        refine hk3.write S f a b ?_ ?_ (fun _ => hns)
-        · exact (isLive_iff _ _).2 ⟨xa, by rw [hl3]; exact hxa.1, hxa.2⟩
-        · exact (isLive_iff _ _).2 ⟨xb, by rw [hl3]; exact hxb.1, hxb.2⟩
+        have hk4 := hk3.write S f a b
+          ((isLive_iff _ _).2 ⟨xa, by rw [hl3]; exact hxa.1, hxa.2⟩)
+          ((isLive_iff _ _).2 ⟨xb, by rw [hl3]; exact hxb.1, hxb.2⟩) (fun hc => hc.elim)
+        exact HK.collect hk4.1
     · exact hk
   | mkq k c dom =>
     simp only [specStep]
@@ -499,13 +498,13 @@ theorem specStep_HK (q : Quirks) (S : Schema) (s : Spec) (op : Op) (hI : SpecInv
 theorem HK_init (q : Quirks) (C : Prop) : HK q C Spec.init.h := by
   refine ⟨⟨?_, ?_, ?_, ?_⟩, fun _ => rfl, ?_⟩ <;> simp [Spec.init, Heap.empty, Heap.roots, Heap.Tight]
 
-theorem specRun_HK (q : Quirks) (S : Schema) (ops : List Op) : HK q S.ContainerClosed (specRun q S ops).h := by
+theorem specRun_HK (q : Quirks) (S : Schema) (ops : List Op) : HK q True (specRun q S ops).h := by
   unfold specRun
-  have : ∀ (l : List Op) (s : Spec), SpecInv s → HK q S.ContainerClosed s.h →
-      SpecInv (l.foldl (specStep q S) s) ∧ HK q S.ContainerClosed (l.foldl (specStep q S) s).h := by
+  have : ∀ (l : List Op) (s : Spec), SpecInv s → HK q True s.h →
+      SpecInv (l.foldl (specStep q S) s) ∧ HK q True (l.foldl (specStep q S) s).h := by
     intro l; induction l with
     | nil => intro s h1 h2; exact ⟨h1, h2⟩
-    | cons op l ih => intro s h1 h2; exact ih _ (specStep_inv q S s op h1) (specStep_HK q S s op h1 h2)
+    | cons op l ih => intro s h1 h2; exact ih _ (specStep_inv q S s op h1) (specStep_HK q True S s op h1 h2)
   exact (this ops _ specInv_init (HK_init q _)).2
 
 /-- the heap of the model of the code as it is IS the heap of the index-free specification (`C14_model_eq_spec`) -/
@@ -528,20 +527,15 @@ theorem C20_no_garbage_after_collect_run (S : Schema) (a : Alloc σ) (ha : a.Val
     (((run Quirks.asIs S a ops).h.collect Quirks.asIs).garbage Quirks.asIs) = [] :=
   collect_garbage_nil (C20_wf_run S a ha ops)
 
-/-- **C20_no_garbage_run_partial.** For every schema in which the inference started by a container field only reaches
-container fields, every valid allocator and every history: at every point nothing is alive that is unreachable from the
-user's references and the user's live query objects.
-
-The full statement (no hypothesis on the schema),
-`∀ S a (ha : a.Valid) ops, (run Quirks.asIs S a ops).h.garbage Quirks.asIs = []`,
-is FALSE in the model: `C20_cex_container_overwrite`. Missing: the model's container `set` (`append` / `add`) does not
-collect after the inference, although an inferred relation on a SCALAR field (e.g. the inverse `parent` of `children`)
-overwrites — and in CPython releases at once — the old value. -/
-theorem C20_no_garbage_run_partial (S : Schema) (hS : S.ContainerClosed) (a : Alloc σ) (ha : a.Valid)
-    (ops : List Op) : (run Quirks.asIs S a ops).h.garbage Quirks.asIs = [] := by
+/-- **C20_no_garbage_run.** Every schema, every valid allocator, every history: at every point nothing is alive that is
+unreachable from the user's references and the user's live query objects. (Every operation that can release a reference —
+`drop`, `dropq`, `evalq`, and `set` on a scalar AND on a container field, whose inference may overwrite a scalar field —
+ends with the collection CPython's reference counting performs; all others only add references to live instances.) -/
+theorem C20_no_garbage_run (S : Schema) (a : Alloc σ) (ha : a.Valid) (ops : List Op) :
+    (run Quirks.asIs S a ops).h.garbage Quirks.asIs = [] := by
   have hk := specRun_HK Quirks.asIs S ops
   rw [run_heap_eq S a ha]
-  exact hk.1.garbage_nil_iff.2 (hk.2.2 hS)
+  exact hk.1.garbage_nil_iff.2 (hk.2.2 trivial)
 
 /-- a container field `0` (children) whose inverse `1` (parent) is a scalar -/
 def overwriteSchema : Schema where
@@ -554,16 +548,19 @@ def overwriteSchema : Schema where
   desc := fun f => f
   fuel := 4
 
-/-- **C20_cex_container_overwrite** (test on a concrete witness; a finding about the MODEL, not about krrood): `p0.children
-= [c]` (inferred: `c.parent = p0`), the user drops `p0` (still reachable through `c.parent`), then `p1.children.append(c)`:
-the inferred `c.parent = p1` overwrites the only reference to `p0`. The model keeps `p0` alive until the next operation
-that collects; the next collection reclaims it. -/
+/-- **C20_cex_container_overwrite** (regression test on a concrete witness; it was a finding about the MODEL, not about
+krrood): `p0.children = [c]` (inferred: `c.parent = p0`), the user drops `p0` (still reachable through `c.parent`), then
+`p1.children.append(c)`: the inferred `c.parent = p1` overwrites the only reference to `p0`. Before the repair the model's
+container `set` did not collect and kept `p0` alive until the next collecting operation (`garbage = [0]`); now `p0` dies
+with the `append`, as in CPython — in a schema that is not container-closed. -/
 theorem C20_cex_container_overwrite :
     let ops : List Op := [.new 0 0 0, .new 1 0 1, .new 2 0 2, .set 0 0 2, .drop 0, .set 0 1 2]
-    (run Quirks.asIs overwriteSchema lifo ops).h.garbage Quirks.asIs = [0] ∧
-    ¬ overwriteSchema.ContainerClosed ∧
-    (run Quirks.asIs overwriteSchema lifo (ops ++ [.mkq 9 0 none, .dropq 9])).h.garbage Quirks.asIs = [] := by
-  refine ⟨by decide, ?_, by decide⟩
+    (run Quirks.asIs overwriteSchema lifo (ops.take 5)).h.live.map (·.obj) = [0, 1, 2] ∧
+    (run Quirks.asIs overwriteSchema lifo ops).h.live.map (·.obj) = [1, 2] ∧
+    (run Quirks.asIs overwriteSchema lifo ops).h.garbage Quirks.asIs = [] ∧
+    (specRun Quirks.asIs overwriteSchema ops).reg.map (·.obj) = [1, 2] ∧
+    ¬ overwriteSchema.ContainerClosed := by
+  refine ⟨by decide, by decide, by decide, by decide, ?_⟩
   intro h
   exact h.inverse 0 0 1 (by decide) (by decide) (by decide)
 
@@ -607,57 +604,25 @@ theorem C20_drop_all_clean (S : Schema) (a : Alloc σ) (ha : a.Valid) (ops : Lis
   exact ⟨hlive, hn, hc.byClass.trans hn, hi, he, hr⟩
 
 open KrroodVerif.Drive.SG in
-theorem harness_kind_ns {f : Fld} (h : schema.kind f ≠ .scalar) : f ≠ 0 ∧ f ≠ 6 ∧ f ≠ 7 ∧ f ≠ 8 := by
-  refine ⟨?_, ?_, ?_, ?_⟩ <;> (rintro rfl; exact h rfl)
-
-open KrroodVerif.Drive.SG in
-/-- **C20_harness_schema_closed.** The schema of the harness (with every hierarchy extension a history may define) is
-container-closed: its container fields `member_of`, `members`, `sub_of` and the plain fields only infer container fields. -/
-theorem C20_harness_schema_closed (extra : List (Cls × Cls)) : (schemaWith extra).ContainerClosed := by
-  constructor
-  · intro f c f' hk hf'
-    obtain ⟨h0, -⟩ := harness_kind_ns hk
-    have : schema.supers f c = [] := by
-      unfold schema; simp only
-    have hf'' : f' ∈ schema.supers f c := hf'
-    rw [this] at hf''; cases hf''
-  · intro f c f' hk hf'
-    obtain ⟨h0, h6, h7, h8⟩ := harness_kind_ns hk
-    have : schema.takerSupers f c = [] := by
-      unfold schema; simp only; split <;> simp_all
-    have hf'' : f' ∈ schema.takerSupers f c := hf'
-    rw [this] at hf''; cases hf''
-  · intro f c f' hk hf'
-    obtain ⟨h0, h6, h7, h8⟩ := harness_kind_ns hk
-    have hf'' : schema.inverse f c = some f' := hf'
-    show schema.kind f' ≠ .scalar
-    unfold schema at hf''
-    simp only at hf''
-    split at hf'' <;> (try split at hf'') <;> simp_all <;> (subst hf''; decide)
-  · intro f c f' hk hf'
-    have hf'' : schema.takerInverse f c = some f' := hf'
-    show schema.kind f' ≠ .scalar
-    unfold schema at hf''
-    simp only at hf''
-    split at hf'' <;> simp_all
-    subst hf''; decide
-  · intro f f' hk ht hd
-    have hd' : f' = f := hd
-    subst hd'
-    exact hk
-
-open KrroodVerif.Drive.SG in
-/-- **C20_no_garbage_run_harness.** On the schema the correspondence runs (classes defined on the way included): for every
-valid allocator and every history the garbage list is empty at every point. -/
+/-- **C20_no_garbage_run_harness.** The instance the correspondence runs: the harness's schema (which has container fields
+whose inference overwrites a scalar field: `Org.children` (10) / `Org.parent` (11)), classes defined on the way included. -/
 theorem C20_no_garbage_run_harness (extra : List (Cls × Cls)) (a : Alloc σ) (ha : a.Valid) (ops : List Op) :
     (run Quirks.asIs (schemaWith extra) a ops).h.garbage Quirks.asIs = [] :=
-  C20_no_garbage_run_partial _ (C20_harness_schema_closed extra) a ha ops
+  C20_no_garbage_run _ a ha ops
 
 /-! Non-vacuity: the hypotheses are met by non-trivial inputs. -/
 example : cexSchema.ContainerClosed :=
   ⟨fun _ _ _ _ h => by simp [cexSchema] at h, fun _ _ _ _ h => by simp [cexSchema] at h,
    fun _ _ _ _ h => by simp [cexSchema] at h, fun _ _ _ _ h => by simp [cexSchema] at h,
    fun _ _ _ _ _ => by simp [cexSchema]⟩
+/-- the harness schema is NOT container-closed any more: `children.append` overwrites `parent`; the overwritten parent dies
+with the `append` -/
+example :
+    let ops : List Op := [.new 0 1 0, .new 1 1 1, .new 2 1 2, .set 10 0 2, .drop 0, .set 10 1 2]
+    (run Quirks.asIs Drive.SG.schema lifo (ops.take 5)).h.live.map (·.obj) = [0, 1, 2] ∧
+    (run Quirks.asIs Drive.SG.schema lifo ops).h.live.map (·.obj) = [1, 2] ∧
+    (run Quirks.asIs Drive.SG.schema lifo ops).h.fields.map (fun e => (e.owner, e.fld, e.val)) = [(2, 11, 1), (1, 10, 2)] := by
+  decide
 /-- a history that ends with nothing held, after relations, a role and queries (harness schema) -/
 example :
     let st := run Quirks.asIs Drive.SG.schema lifo
